@@ -59,6 +59,7 @@ func RunProperty(id, tier string, writeBaseline bool) int {
 	if ps.Extra != nil {
 		ps.Extra(e, pc)
 	}
+	e.stableFieldsScan(pc)
 	if tier == "thorough" && ps.Thorough != nil {
 		ps.Thorough(e, pc)
 	}
@@ -126,6 +127,8 @@ func init() {
 		Technique: "contract-based deductive verification: byte-level key lemmas over spec functions extracted mechanically from the real key builders (SMT strings), lookup/feed/expiry contracts over the ghost price table; VCs from go/ssa discharged by z3/cvc5"})
 	register(&PropSpec{ID: "C08", Level: "proof", Contracts: true, Extra: func(e *Engine, pc *PropertyCheck) { e.writerClosure(pc, "C08", "leveragelp") },
 		Technique: "contract-based deductive verification: ghost aggregates (per-pool sum of position shares, number of stored positions) with gap-preservation contracts on every function that writes the leveragelp store and on all their callers up to the entry points (closure checked on the SSA call graph); VCs from go/ssa discharged by z3/cvc5"})
+	register(&PropSpec{ID: "C10", Level: "proof", Contracts: true,
+		Technique: "contract-based deductive verification: gate postconditions on the real liquidation / stop-loss / take-profit helpers of leveragelp and perpetual (a force close runs only behind the stated comparison on the values the module computes at that moment; a position off its trigger is left alone), opens and consolidating re-opens store a health strictly above the safety factor read at that moment, owner-keyed lookups on user closes, `callers` clauses pinning every route to the force-close and repay functions; VCs from go/ssa discharged by z3/cvc5"})
 	register(&PropSpec{ID: "C14", Level: "proof", Contracts: true,
 		Technique: "contract-based deductive verification: strongest postcondition of VestedSoFar against the linear spec function, claim/cancel delta contracts, VCs from go/ssa discharged by z3/cvc5"})
 }
